@@ -401,7 +401,11 @@ func c01table(c *Ctx) {
 							if e.verbose {
 								want = false
 							}
-							c.R.NonTrivial(kd.name, e.name, int(L), int(r), st.name)
+							if className(L) == "custom" || className(r) == "custom" {
+								c.R.NonTrivial(kd.name, e.name, int(L), int(r), st.name, strings.Join(cdesc, ";")) // cells on custom levels differ by registry
+							} else {
+								c.R.NonTrivial(kd.name, e.name, int(L), int(r), st.name)
+							}
 							if failingErrDev && n > 0 {
 								for _, ev := range log.Events() {
 									if ev.Kind != mon.EvWrite || !bytes.Contains(ev.Data, []byte(diagText)) {
